@@ -37,7 +37,7 @@ pub fn special_cells(rmin: i32, rmax: i32, dense: bool) -> Vec<u64> {
         }
         for k in 0..(if dense { 37 } else { 13 }) {
             let lat = -90.0 + 180.0 * k as f64 / (if dense { 36.0 } else { 12.0 });
-            for lon in [180.0, -180.0, 179.999999999] {
+            for lon in [180.0, -180.0, 179.999999999, 87.0, 86.999999999, -273.0] {
                 if let Ok(c) = subj::lookup(lon, lat, r) {
                     if rc::resolution(c) == Some(r) {
                         out.push(c);
